@@ -24,6 +24,12 @@ CLAIMED = {
  'C14': dict(cat='exploration', ref='5/C14', tech=SIM + 'refinement check: probe search after (generated history + Clear Hash) vs. the same probe in a fresh engine process with the same option history, and vs. the same history under another schedule/clock',
       text='Seeded histories of 1..40 searches of all limit kinds (unrelated positions, earlier positions of the probe game, 3-man roots that build/abort on-demand tables, ucinewgame, option changes), then Clear Hash and a depth- or node-limited probe with one thread; the probe transcript (score lines without time/nps, node counts, bestmove) must equal that of a fresh engine.',
       note='Probe is restricted to full strength (Strength=1000, no MaxNPS/LimitStrength): reduced-strength play is seeded from the clock at ucinewgame by design. time/nps/hashfull fields and time-triggered currmove/stat lines are not compared.'),
+ 'C08': dict(cat='exploration', ref='5/C08', tech='deterministic simulation of 2..16 threads on one TranspositionTable with a scheduler switch point between the key word and the data word of every slot store and load; registry oracle of every record ever stored per key',
+      text='Simulated threads hammer one or two buckets (keys that share top and low index bits) with unique payloads while the scheduler may switch threads between the two relaxed atomic accesses of every store and load; a probe hit must return a data word that was stored as one unit for exactly that key, mate scores must shift by exactly the ply difference, every bucket index (hook) must satisfy idx%4==0 and idx+3<usedSize<=tableSize for all allocated sizes incl. non-powers of two and the reduced size with a resident tablebase (index sweep over all 2^16 top-bit values), and the bytes of a resident tablebase must be unchanged by insert traffic. Plain and ASan/UBSan flavours.',
+      note='Memory model: sequentially consistent interleavings of the individual atomic accesses (covers every (key word, data word) combination two independent relaxed words can expose); TTEntry field packing is trusted (single-threaded code covered by the unit tests). The relaxed-store reordering hook of DESIGN.md 3.5 was dropped: the yield between the halves already produces both torn combinations.'),
+ 'C09': dict(cat='exploration', ref='5/C09', tech='deterministic simulation (seeded baton scheduler invisible to ThreadSanitizer) of UCI sessions with 2..8 threads and of the proof-game filter worker pool in a TSan build; ThreadSanitizer happens-before analysis is the invariant',
+      text='Short sessions with Threads 2..8, searches started/stopped/pondered, options changed between and during searches, ucinewgame, Clear Hash on >16 MB tables (thread pool), quit during search, under seeded schedules; plus ProofGameFilter with 2..16 workers whose output must also equal the one-worker output. Any ThreadSanitizer report is a violation whose seed replays the same schedule.',
+      note='The scheduler TU is not TSan-instrumented and hands over with raw futexes, so it adds no happens-before edges; harness-namespace frames (sess::, vsim::, ...) are suppressed, repository code never is. Detection power = TSan happens-before analysis on the sampled schedules (a race hidden behind an incidental lock edge in one schedule is found in another).'),
  'C10': dict(cat='exploration', ref='5/C10', tech=SIM + 'PCT-style and random schedulers with bounded unfairness, spurious wake-ups, stalls; safety + bounded-liveness + quiescence oracle',
       text='Control scripts (go/finish, go/stop, ponder/ponderhit, ponder/stop, back-to-back go, Threads changes, quit/EOF during search) with Threads 1..8 and tiny searches; every command is released at a chosen sim step so it meets the engine at every stage; exactly one legal bestmove per go, no simulator deadlock, all threads parked after the last bestmove (wait_idle), all threads joined at exit. Exhaustive bounded pre-emption search is NOT done; PCT sampling is the substitute.',
       note='Liveness judged with step/node budgets under schedulers with a starvation bound; pre-emption only at intercepted sync points, clock reads, stream appends, node ticks.'),
@@ -38,7 +44,7 @@ NA = {
  'C20': 'The constraint solver is a pure function of the constraint system (DESIGN.md section 6).',
 }
 PENDING = {}
-for pid in ['C04', 'C07', 'C08', 'C09', 'C17', 'C18', 'C19']:
+for pid in ['C04', 'C07', 'C17', 'C18', 'C19']:
     PENDING[pid] = 'check designed (DESIGN.md section 5) but not yet built/gated in this tree; not claimed until it passes its determinism and sensitivity gates'
 
 def main():
